@@ -14,6 +14,7 @@ import (
 	"crypto/rand"
 	"crypto/sha256"
 	"encoding/binary"
+	"encoding/hex"
 	"encoding/json"
 	"fmt"
 	"io"
@@ -46,7 +47,7 @@ type fileIn struct {
 	GOARCH    string          `json:"goarch"`
 	Begin     string          `json:"begin"` // RFC3339
 	End       string          `json:"end"`   // RFC3339
-	Counts    [][2]any        `json:"counts"`
+	Counts    [][]any         `json:"counts"` // [name, value] or [hex of the name bytes, value, 1]
 	Raw       json.RawMessage `json:"-"`
 }
 
@@ -239,8 +240,18 @@ func writeFiles(dir string, step int, files []fileIn) error {
 	for i, f := range files {
 		var ents []rt.V1Entry
 		for _, c := range f.Counts {
+			if len(c) < 2 {
+				return fmt.Errorf("bad count entry %v", c)
+			}
 			name, _ := c[0].(string)
 			v, _ := c[1].(float64)
+			if len(c) > 2 { // the name is given as hex: bytes that JSON cannot carry
+				raw, err := hex.DecodeString(name)
+				if err != nil {
+					return err
+				}
+				name = string(raw)
+			}
 			ents = append(ents, rt.V1Entry{Name: name, Value: uint64(v)})
 		}
 		data, err := rt.WriteV1(rt.V1Meta(f.Begin, f.End, f.Program, f.Version, f.GoVersion, f.GOOS, f.GOARCH), ents)
